@@ -5,6 +5,7 @@ package props
 
 import (
 	"context"
+	"errors"
 	"fmt"
 	"math/big"
 	"strings"
@@ -53,6 +54,8 @@ type harnessProvider struct {
 	forwarded       int
 	out             chan<- types.Log
 	subs            []ethereum.Subscription
+	ambiguousNext   bool
+	sent            int
 }
 
 // shutdown ends the log subscriptions (the proxy's event loop has no other way to stop and would keep the whole
@@ -72,6 +75,21 @@ func (p *harnessProvider) PendingCallContract(ctx context.Context, call ethereum
 		return p.SimulatedBackend.CallContract(ctx, call, nil)
 	}
 	return p.SimulatedBackend.PendingCallContract(ctx, call)
+}
+
+// SendTransaction sometimes delivers the transaction and then reports a transport error (the reply was lost): the
+// sender cannot know whether it went out.
+func (p *harnessProvider) SendTransaction(ctx context.Context, tx *types.Transaction) error {
+	err := p.SimulatedBackend.SendTransaction(ctx, tx)
+	p.mu.Lock()
+	amb := p.ambiguousNext
+	p.ambiguousNext = false
+	p.sent++
+	p.mu.Unlock()
+	if err == nil && amb {
+		return errors.New("read tcp: connection reset by peer")
+	}
+	return err
 }
 
 func (p *harnessProvider) SubscribeFilterLogs(ctx context.Context, q ethereum.FilterQuery, ch chan<- types.Log) (ethereum.Subscription, error) {
@@ -417,7 +435,34 @@ func TestC07Contract(t *testing.T) {
 				cred1 := new(big.Int).Set(cr(acct))
 				exec1, pays1 := expect(dep, cred1, funds)
 				before := f.chainBalance(w.addr)
+				ambiguous := !second && !locked && rapid.IntRange(0, 5).Draw(rt, "replyOfSendLost") == 0
+				if ambiguous {
+					f.provider.mu.Lock()
+					f.provider.ambiguousNext = true
+					f.provider.mu.Unlock()
+				}
 				err := doWithdraw(w, acct)
+				if ambiguous {
+					f.provider.mu.Lock()
+					f.provider.ambiguousNext = false
+					f.provider.mu.Unlock()
+					if lateEvents {
+						release()
+					}
+					f.backend.Commit()
+					got := new(big.Int).Sub(f.chainBalance(w.addr), before)
+					hist = append(hist, fmt.Sprintf("%s withdraws as %s (deposit %s + credit %s, would pay %s); the provider loses the reply to the settlement transaction -> err=%v, received %s", w.name, acct, dep, cred1, pays1, err, got))
+					// the pool cannot know whether the transaction went out; whatever it decides, one request must not
+					// be paid more than once
+					if got.Sign() != 0 && got.Cmp(pays1) != 0 {
+						fail("one withdraw request whose settlement reply was lost paid %s; at most %s (once) is owed", got, pays1)
+					}
+					for _, a := range []string{acct} {
+						credit[a] = storedCredit(a)
+					}
+					touched[w.addr] = true
+					continue
+				}
 				if lateEvents {
 					n := release()
 					hist = append(hist, fmt.Sprintf("(%d events of earlier blocks are delivered only now, after %s's withdraw request)", n, w.name))
